@@ -3,6 +3,7 @@ package main
 import (
 	"fmt"
 	"strings"
+	"sync/atomic"
 	"time"
 
 	"verif/evid"
@@ -64,6 +65,8 @@ func valueLens(keyLen int) []int {
 	return []int{0, 1, 100, p - 1, p, p + 1, 3*p + 7}
 }
 
+var inmemSeq int64
+
 func checkC01(tier, replay string) int {
 	run := evid.NewRun("C01", tier, "exploration")
 	run.Rule("closed-loop command sequences (8-40 commands over 4 colliding keys, all nine data commands, multi/quiet gets, quiet sets) " +
@@ -78,6 +81,9 @@ func checkC01(tier, replay string) int {
 		cfgs = c01Configs(false)
 		cfgs = append(cfgs, harness.ProxyCfg{L2: true, L1Kind: "chunked"}, harness.ProxyCfg{L2: false, L1Kind: "batched"})
 	}
+	// the in-process L1 in front of an L2 (its contents cannot be reset from outside: every
+	// sequence gets keys of its own; relative TTLs only, as the handler documents)
+	cfgs = append(cfgs, harness.ProxyCfg{L2: true, L1Kind: "inmem"})
 	proxyPool(run, cfgs, 12, func(p *harness.Proxy, restart func() *harness.Proxy) {
 		cfg := p.Cfg
 		for _, binary := range []bool{false, true} {
@@ -91,6 +97,13 @@ func checkC01(tier, replay string) int {
 					keys := keyAlphabet(cfg.L1Kind)
 					o := genOpts{Binary: binary, Keys: keys, MinLen: 8, MaxLen: 40, TTLs: ttlClasses, T0: p.L1.T0(),
 						AllowGat: true, AllowQuiet: true, AllowMulti: true, Ports: pm.Ports, ValueLens: valueLens(2)}
+					if cfg.L1Kind == "inmem" {
+						o.Keys = nil
+						for _, k := range keys {
+							o.Keys = append(o.Keys, fmt.Sprintf("i%d.%s", atomic.AddInt64(&inmemSeq, 1), k))
+						}
+						o.TTLs = []string{"0", "1000", "100000"}
+					}
 					cmds := g.sequence(o)
 					what := fmt.Sprintf("%s|%s|%s", cfg.Name(), protoName(binary), pm.Name)
 					run.Eval(1)
